@@ -178,7 +178,7 @@ fn finish(m: &Merged, tier: Tier) -> Finish {
     let kinds_hit = ALL_KINDS.iter().filter(|k| m.c(&format!("kind:{k}")) > 0).count();
     let (cells_hit, cells_total) = crate::c01::cell_floor(m);
     let mut f = Finish {
-        rule: "every case is evaluated by reval and by the independent reference evaluator E2 and the outcomes compared (values structurally, Float by bits with NaN=NaN, Decimal by value and scale; errors by admissible variant and the payload the statement fixes). Non-trivial = everything except a bare type error at the root of a depth-1 case; distinct by hash of (tree, input)".into(),
+        rule: "every case is evaluated by reval and by the independent reference evaluator E2 and the outcomes compared (values structurally, Float by bits with NaN=NaN, Decimal by value and scale; errors by admissible variant and the payload the statement fixes). Cases: the depth-1 product over the boundary pool (incl. leap-second datetimes), depth-2 chains, random operands, the string families of workload.rs (small-alphabet contains, every low character through trim / case mapping, numeric- and date-looking strings), random compositions, the same through text. Non-trivial = everything except a bare type error at the root of a depth-1 case; distinct by hash of (tree, input)".into(),
         exhaustive: false,
         exhaustive_part: format!(
             "depth-1 product over the whole pool and the boundary chains are complete; depth-2 compositions over the 34-value reduced pool are {}",
@@ -198,6 +198,7 @@ fn finish(m: &Merged, tier: Tier) -> Finish {
     let min_cell = m.counters.iter().filter(|(k, _)| k.starts_with("cell:")).map(|(_, v)| *v).min().unwrap_or(0);
     f.extras.insert("min_hits_per_cell".into(), json!(min_cell));
     f.assumptions = vec![
+        "DateTime - DateTime with an operand that is a leap-second representation (nanosecond part >= 10^9) is taken from chrono's own subtraction: the language does not define how leap seconds count, and chrono's rule (one leap second assumed, counted depending on the time-of-day order of the operands) is the only definition there is. All other date arithmetic is computed independently".into(),
         "the operator table is the one recorded in DESIGN.md section 2/E2 (the repository documents none); cells the statements leave open (i128::MIN % -1, Decimal division overflow class) accept any listed outcome".into(),
         "E2 trusts Rust i128/f64 arithmetic, rust_decimal, chrono and std string functions — the libraries reval itself delegates to; it checks dispatch, operand order, error mapping, range handling and composition".into(),
     ];
